@@ -58,3 +58,67 @@ theorem kw_distinct :
   decide
 
 end Pvl
+
+namespace Pvl
+open Py Enc
+
+theorem casefold_quote (q : Nat) (hq : q = 34 ∨ q = 39) (r : Str) : casefold (q :: r) = 0x110000 :: casefold r := by
+  have hf : Gen.pyCasefold.find? (fun p => p.1 == q) = none := by rcases hq with rfl | rfl <;> decide
+  simp [casefold, List.flatMap_cons, hf]
+
+theorem startsWith_cons_self (q : Nat) (r : Str) : startsWith (q :: r) [q] = true := by simp [startsWith]
+
+theorem endsWith_snoc_self (l : Str) (q : Nat) : endsWith (l ++ [q]) [q] = true := by
+  simp [endsWith, startsWith]
+
+/-- **C01, quoted strings round-trip** under the PVL-kind decoder (which takes the text between the quotes
+    as it stands): whatever quotation mark `encode_string` chose, `q s q` decodes to `s` -/
+theorem C01_quoted_string_roundtrip (c : EncCfg) (hk : c.d.kind = .pvl) (hg : c.d.g = c.g)
+    (hkw : [c.g.noneKw, c.g.trueKw, c.g.falseKw].all (fun kw => (casefold kw).head? != some 0x110000) = true)
+    (hquotes : ∀ q ∈ c.g.quotes, q = 34 ∨ q = 39) (s text : Str)
+    (h : encodeStringBase c s true = .ok text) : decodeSimple c.d text = .ok (.str s) := by
+  unfold encodeStringBase at h
+  simp only [if_true] at h
+  split at h
+  · rename_i q hfind
+    simp only [Except.ok.injEq] at h
+    subst h
+    have hqm : q ∈ c.g.quotes := List.mem_of_find?_eq_some hfind
+    have hq := hquotes q hqm
+    simp only [List.all_cons, List.all_nil, Bool.and_true, Bool.and_eq_true] at hkw
+    obtain ⟨k1, k2, k3⟩ := hkw
+    have fold : ∀ kw, ((casefold kw).head? != some 0x110000) = true → foldEq ([q] ++ s ++ [q]) kw = false := by
+      intro kw hk'
+      unfold foldEq
+      rw [show [q] ++ s ++ [q] = q :: (s ++ [q]) from by simp, casefold_quote q hq]
+      cases hc : casefold kw with
+      | nil => simp
+      | cons a r =>
+        rw [hc] at hk'
+        simp at hk'
+        simp
+        intro e; exact absurd e.symm hk'
+    unfold decodeSimple
+    rw [hg, fold _ k1, fold _ k2, fold _ k3]
+    simp only [Bool.false_eq_true, if_false]
+    have hdq : decodeQuoted c.d ([q] ++ s ++ [q]) = some s := by
+      unfold decodeQuoted
+      rw [hk]
+      simp only
+      unfold decodeQuotedBase
+      rw [hg]
+      have hany : c.g.quotes.any (fun q' => startsWith ([q] ++ s ++ [q]) [q'] && endsWith ([q] ++ s ++ [q]) [q'] &&
+          decide (([q] ++ s ++ [q]).length > 1)) = true := by
+        rw [List.any_eq_true]
+        refine ⟨q, hqm, ?_⟩
+        have e1 : startsWith ([q] ++ s ++ [q]) [q] = true := by
+          rw [show [q] ++ s ++ [q] = q :: (s ++ [q]) from by simp]; exact startsWith_cons_self q _
+        have e2 : endsWith ([q] ++ s ++ [q]) [q] = true := endsWith_snoc_self _ q
+        rw [e1, e2]
+        simp
+      rw [if_pos hany]
+      simp
+    rw [hdq]
+  · cases h
+
+end Pvl
